@@ -130,3 +130,6 @@ def run_shard(spec):
 
 def replay(doc):
     return pool_checks.replay(__import__(MOD, fromlist=["x"]), doc)
+
+
+RULE += ' Also (waves 8-9): huge / infinite chunk sizes, a pool feeding a pool (two ordered calls alive at once), an iterable that is callable as well.'
